@@ -32,7 +32,7 @@ ASSUMPTIONS = [
 REQUIRED_COUNTERS = [
     "trees.dsl", "trees.parsed", "docs.serialized", "refs.resolved", "metaschema.valid", "verdicts.compared",
     "verdicts.accept", "verdicts.reject", "definitions.substituted", "definitions.from_inside",
-    "definitions.equal_copy", "definitions.unrelated", "shape.renamed_property", "shape.explicit_required",
+    "definitions.equal_copy", "definitions.near_miss_twin", "definitions.unrelated", "shape.renamed_property", "shape.explicit_required",
     "shape.inherited_class", "shape.shared_node", "multi_element", "jsonschema.check_schema_ok",
     "multi_element.refers_to_primary", "definitions.holding_class", "reserialized.same_tree_other_arguments",
 ]
@@ -230,6 +230,18 @@ def run_shard(ctx):
                 spec["kw"].pop("const", None)
                 spec["kw"]["enum"] = rng.choice([[], ["a", "a"], [1, 1.0, 2]])
                 ctx.count("shape.empty_enum")
+            near_miss = None
+            if idx % 7 == 3 and spec["t"] == "Object":
+                # the tree holds an element whose literals are booleans; the caller's definitions hold its
+                # 0/1 twin (equal as Python dicts once serialized, NOT equal as elements or as JSON): the
+                # element must stay itself
+                literal_kw, twin_kw = rng.choice([
+                    ({"enum": [False, True]}, {"enum": [0, 1]}), ({"const": True}, {"const": 1}),
+                    ({"default": False}, {"default": 0}), ({"enum": [[True]], "default": [True]}, {"enum": [[1]], "default": [1]}),
+                    ({"const": {"on": False}}, {"const": {"on": 0}})])
+                spec["props"]["nm"] = {"el": {"t": "Element", "kw": copy.deepcopy(literal_kw)}, "required": False,
+                                       "source": None}
+                near_miss = {"t": "Element", "kw": copy.deepcopy(twin_kw)}
             try:
                 element = gen_dsl.build(spec)
             except Exception as exc:  # pylint: disable=broad-except
@@ -244,7 +256,11 @@ def run_shard(ctx):
         f09 = isinstance(element, sut.Nothing)
         mode = rng.choice(["none", "none", "inside", "inside", "copy", "unrelated", "multi", "multi_ref",
                            "def_class"])
-        if mode == "inside":
+        if spec is not None and locals().get("near_miss"):
+            mode = "near_miss"
+            definitions[def_key(rng, 0)] = gen_dsl.build(near_miss)
+            ctx.count("definitions.near_miss_twin")
+        elif mode == "inside":
             for k, sub in enumerate(pick_inside(rng, sut, element)):
                 definitions[def_key(rng, k)] = sub
             if definitions:
